@@ -384,8 +384,24 @@ Path_drw = path_type("drw", docstring="path to a directory that exists and is re
 
 register_type(os.PathLike, str, str)
 register_type(complex)
+
+
+def decimal_serializer(value):
+    number = float(value)
+    return number if decimal_deserializer(number) == value else str(value)
+
+
+def decimal_deserializer(value):
+    from decimal import Decimal
+
+    return Decimal(repr(value) if isinstance(value, float) else value)
+
+
 register_type_on_first_use(
-    "decimal.Decimal", float, deserializer_exceptions=(ValueError, TypeError, AttributeError, ArithmeticError)
+    "decimal.Decimal",
+    decimal_serializer,
+    decimal_deserializer,
+    deserializer_exceptions=(ValueError, TypeError, AttributeError, ArithmeticError),
 )
 register_type_on_first_use("uuid.UUID")
 
